@@ -248,14 +248,17 @@ class Gen(object):
         self.count[prefix] = self.count.get(prefix, 0) + 1
         return '%s%d' % (prefix, self.count[prefix])
 
-    def add_two(self, a, b, d, L):
+    def add_two(self, a, b, d, L, fixed=None, size=None):
         """component between nodes a -> b, b lies in direction d from a at distance L (graph units)"""
         rng = self.rng
+        force_fixed, force_size = fixed, size
         prefix, suffix, cls = rng.choice(TWO_KINDS)
         if rng.random() < 0.5:
             a, b, d = b, a, OPP[d]
         # fixed only for lengths that are exact in binary floating point (lcapy compares fixed sizes with ==)
         fixed = rng.random() < 0.2 and (L.denominator & (L.denominator - 1)) == 0
+        if force_fixed is not None:
+            fixed = force_fixed
         free = False
         opts = []
         if fixed:
@@ -263,6 +266,8 @@ class Gen(object):
         else:
             cands = [L] + [s for s in (Fraction(1, 2), Fraction(1), Fraction(3, 2), L / 2) if 0 < s <= L]
             size = rng.choice(cands)
+            if force_size is not None:
+                size = force_size
         # how the direction is spelled
         style = rng.random()
         dd = d
@@ -472,13 +477,81 @@ class Gen(object):
                               'size': L2, 'fixed': False, 'free': False})
         return True
 
-    def build(self, ncomp):
+    def step_chain_loop(self):
+        """a loop whose one side is the critical path (components at their minimum size) and whose other side
+        is a chain of 3-4 components with slack: stretchy, FIXED (or a fixed-size TR block) in the middle,
+        stretchy - in any of the four directions, listed forwards or backwards"""
+        rng = self.rng
+        d = rng.choice(DIRS)
+        pdir = DIRS[(DIRS.index(d) + rng.choice([1, 3])) % 4]
+        A = rng.choice([n for n in self.pos if '.' not in n])
+        pa = self.pos[A]
+        half = Fraction(1, 2)
+        k = rng.choice([3, 3, 4])
+        lens = [Fraction(rng.randint(1, 4), 2) for _ in range(k)]
+        j = rng.randint(1, k - 2)
+        # the fixed one keeps a binary-exact length; give the stretchy ones room
+        for i in range(k):
+            if i != j and lens[i] < 1:
+                lens[i] = Fraction(1)
+        T = sum(lens)
+
+        def at(t, off):
+            return (pa[0] + DVEC[d][0] * t + DVEC[pdir][0] * off, pa[1] + DVEC[d][1] * t + DVEC[pdir][1] * off)
+        occupied = set(self.pos.values())
+        pts = [at(T, 0), at(0, 1), at(T, 1)]
+        acc = Fraction(0)
+        inner = []
+        for i in range(k - 1):
+            acc += lens[i]
+            inner.append(at(acc, 1))
+        ncrit = rng.choice([1, 2])
+        mid = at(T / 2, 0) if ncrit == 2 else None
+        allpts = pts + inner + ([mid] if mid else [])
+        if len(set(allpts)) != len(allpts) or any(q in occupied for q in allpts):
+            return False
+        B = self.new_node(pts[0])
+        A1 = self.new_node(pts[1])
+        B1 = self.new_node(pts[2])
+        chain_nodes = [A1] + [self.new_node(q) for q in inner] + [B1]
+        # critical side at minimum size
+        if ncrit == 2:
+            M = self.new_node(mid)
+            self.add_two(A, M, d, T / 2, fixed=False, size=T / 2)
+            self.add_two(M, B, d, T / 2, fixed=False, size=T / 2)
+        else:
+            self.add_two(A, B, d, T, fixed=False, size=T)
+        self.add_two(A, A1, pdir, Fraction(1), fixed=False, size=Fraction(1))
+        segs = list(range(k))
+        if rng.random() < 0.5:
+            segs.reverse()
+        for i in segs:
+            a, b, L = chain_nodes[i], chain_nodes[i + 1], lens[i]
+            if i == j:
+                if rng.random() < 0.3:
+                    idx = 100 + len(self.spec)
+                    name = 'TR%d' % idx
+                    self.lines.append('%s %s %s; %s=%s' % (name, a, b, d, dec(L)))
+                    self.spec.append({'name': name, 'line': len(self.lines) - 1, 'cls': 'TR', 'kind': 'multi', 'nodes': [a, b],
+                                      'dir': d, 'size': L, 'fixed': False, 'free': False})
+                else:
+                    self.add_two(a, b, d, L, fixed=True)
+            else:
+                self.add_two(a, b, d, L, fixed=False, size=rng.choice([s_ for s_ in (half, Fraction(1), L / 2) if s_ < L] or [half]))
+        self.add_two(B, B1, pdir, Fraction(1), fixed=False, size=Fraction(1))
+        return True
+
+    def build(self, ncomp, chain=False):
         rng = self.rng
         self.new_node((Fraction(rng.randint(0, 3)), Fraction(rng.randint(0, 3))))
         # the first component must create a second node
         first = dict(self.pos)
-        while not self.step_two():
-            self.pos = dict(first)
+        if chain:
+            if not self.step_chain_loop():
+                chain = False
+        if not chain:
+            while not self.step_two():
+                self.pos = dict(first)
         tries = 0
         while len(self.spec) < ncomp and tries < 200:
             tries += 1
@@ -1128,6 +1201,18 @@ PROBES = [
 ]
 
 
+def _chain_probe(d, pdir):
+    # critical side 1 -> 6 -> 0 (3 + 3); chain 2 -> 3 -> 4 -> 5 with the fixed component in the middle
+    lines = ['V1 1 6; %s=3' % d, 'W1 6 0; %s=3' % d, 'W2 1 2; %s' % pdir, 'R1 2 3; %s' % d, 'R2 3 4; %s, fixed' % d,
+             'R3 4 5; %s' % d, 'W3 0 5; %s' % pdir]
+    t = {'1': (0, 0), '6': (3, 0), '0': (6, 0), '2': (0, 1), '3': (2, 1), '4': (3, 1), '5': (6, 1)}
+    wit = {n: (DVEC[d][0] * a + DVEC[pdir][0] * b, DVEC[d][1] * a + DVEC[pdir][1] * b) for n, (a, b) in t.items()}
+    return ('probe_chain_%s' % d, lines, wit)
+
+
+PROBES += [_chain_probe('down', 'right'), _chain_probe('left', 'down'), _chain_probe('right', 'up'), _chain_probe('up', 'left')]
+
+
 def normalise_pinrefs(lines, spec):
     for c in spec:
         if c.get('pinrefs'):
@@ -1155,7 +1240,8 @@ def make_cases(rng, geoms, tier):
                           '_kind': 'probe'})
     ngen = 44 if tier == 'quick' else 900
     for i in range(ngen):
-        g = Gen(rng, geoms, rich=(i % 3 != 0)).build(rng.randint(2, 10 if tier == 'quick' else 14))
+        chain = (i % 3 == 1)
+        g = Gen(rng, geoms, rich=(i % 3 != 0)).build(rng.randint(2, 10 if tier == 'quick' else 14) + (8 if chain else 0), chain=chain)
         normalise_pinrefs(g.lines, g.spec)
         opts = {'node_spacing': rng.choice(SPACINGS)}
         if rng.random() < 0.4:
